@@ -8,22 +8,22 @@ use soroban_sdk::crypto::ideal_hash;
 use soroban_sdk::model::{self, any};
 use soroban_sdk::{Address, Bytes, BytesN, Env, String, Symbol, Val};
 
-fn app() -> Address {
+pub fn app() -> Address {
     Address(4)
 }
-fn gateway_addr() -> Address {
+pub fn gateway_addr() -> Address {
     Address(1)
 }
-fn gas_addr() -> Address {
+pub fn gas_addr() -> Address {
     Address(5)
 }
 // ---- GatewaySpec: a single approval record (what the approval was made for) and its status
-static mut G_STATUS: u8 = 0; // 0 not approved, 1 approved, 2 executed
-static mut G_FOR: Option<(Address, String, String, String, [u8; 32])> = None;
-static mut G_CALLS: u32 = 0;
-static mut G_LAST_TRUE: bool = false;
-static mut G_ADDR_OK: bool = false;
-fn spec_validate_message(env: &Env, contract: &Address, caller: &Address, source_chain: &String, message_id: &String, source_address: &String, payload_hash: &BytesN<32>) -> bool {
+pub static mut G_STATUS: u8 = 0; // 0 not approved, 1 approved, 2 executed
+pub static mut G_FOR: Option<(Address, String, String, String, [u8; 32])> = None;
+pub static mut G_CALLS: u32 = 0;
+pub static mut G_LAST_TRUE: bool = false;
+pub static mut G_ADDR_OK: bool = false;
+pub fn spec_validate_message(env: &Env, contract: &Address, caller: &Address, source_chain: &String, message_id: &String, source_address: &String, payload_hash: &BytesN<32>) -> bool {
     unsafe {
         if *caller != env.current_contract_address() {
             caller.require_auth();
@@ -45,7 +45,7 @@ fn spec_validate_message(env: &Env, contract: &Address, caller: &Address, source
     }
 }
 // the read-only gateway queries are part of GatewaySpec too: an app that merely *asks* instead of consuming is judged, not left inconclusive
-fn spec_is_message_approved(_env: &Env, contract: &Address, source_chain: &String, message_id: &String, source_address: &String, contract_address: &Address, payload_hash: &BytesN<32>) -> bool {
+pub fn spec_is_message_approved(_env: &Env, contract: &Address, source_chain: &String, message_id: &String, source_address: &String, contract_address: &Address, payload_hash: &BytesN<32>) -> bool {
     unsafe {
         let m = match &G_FOR {
             Some((c, ch, id, sa, ph)) => *c == *contract_address && *ch == *source_chain && *id == *message_id && *sa == *source_address && *ph == payload_hash.0,
@@ -54,7 +54,7 @@ fn spec_is_message_approved(_env: &Env, contract: &Address, source_chain: &Strin
         *contract == gateway_addr() && G_STATUS == 1 && m
     }
 }
-fn spec_is_message_executed(_env: &Env, contract: &Address, source_chain: &String, message_id: &String) -> bool {
+pub fn spec_is_message_executed(_env: &Env, contract: &Address, source_chain: &String, message_id: &String) -> bool {
     unsafe {
         match &G_FOR {
             Some((_, ch, id, _, _)) => *contract == gateway_addr() && G_STATUS == 2 && *ch == *source_chain && *id == *message_id,
@@ -62,20 +62,20 @@ fn spec_is_message_executed(_env: &Env, contract: &Address, source_chain: &Strin
         }
     }
 }
-struct Delivery {
-    env: Env,
-    chain: String,
-    id: String,
-    src: String,
-    payload: Bytes,
-    conforming: bool,
+pub struct Delivery {
+    pub env: Env,
+    pub chain: String,
+    pub id: String,
+    pub src: String,
+    pub payload: Bytes,
+    pub conforming: bool,
 }
 /// arbitrary delivery + arbitrary approval record (for the same or another app / chain / id / address / payload)
-fn delivery() -> Delivery {
+pub fn delivery() -> Delivery {
     delivery_with(any::bytes(3), any::bytes(3))
 }
 /// `payload` is delivered; the approval record was made for `other_payload` (possibly equal)
-fn delivery_with(payload: Bytes, other_payload: Bytes) -> Delivery {
+pub fn delivery_with(payload: Bytes, other_payload: Bytes) -> Delivery {
     let env = Env::default();
     any::auths();
     let chain = any::string(2);
@@ -147,13 +147,13 @@ fn c16_miniapp_execute() {
 }
 
 // ---- example send: recorders
-static mut PG_CALLS: u32 = 0;
-static mut PG_OK: bool = false;
-static mut CC_CALLS: u32 = 0;
-static mut CC_OK: bool = false;
-static mut CC_AFTER_PG: bool = false;
-static mut EXPECT: Option<(String, String, Bytes, Address, Token)> = None;
-fn rec_pay_gas(env: &Env, contract: &Address, sender: &Address, destination_chain: &String, destination_address: &String, payload: &Bytes, spender: &Address, token: &Token, metadata: &Bytes) {
+pub static mut PG_CALLS: u32 = 0;
+pub static mut PG_OK: bool = false;
+pub static mut CC_CALLS: u32 = 0;
+pub static mut CC_OK: bool = false;
+pub static mut CC_AFTER_PG: bool = false;
+pub static mut EXPECT: Option<(String, String, Bytes, Address, Token)> = None;
+pub fn rec_pay_gas(env: &Env, contract: &Address, sender: &Address, destination_chain: &String, destination_address: &String, payload: &Bytes, spender: &Address, token: &Token, metadata: &Bytes) {
     unsafe {
         spender.require_auth(); // GasServiceSpec (c14_pay_gas): the spender must authorise
         PG_CALLS += 1;
@@ -163,7 +163,7 @@ fn rec_pay_gas(env: &Env, contract: &Address, sender: &Address, destination_chai
         };
     }
 }
-fn rec_call_contract(env: &Env, contract: &Address, caller: &Address, destination_chain: &String, destination_address: &String, payload: &Bytes) {
+pub fn rec_call_contract(env: &Env, contract: &Address, caller: &Address, destination_chain: &String, destination_address: &String, payload: &Bytes) {
     unsafe {
         if *caller != env.current_contract_address() {
             caller.require_auth();
